@@ -63,8 +63,11 @@ func main() {
 			seed = v
 		}
 	}
-	pack := rules.Get(*prop)
-	if pack == nil {
+	var pack *rules.Pack
+	if *prop != "all" {
+		pack = rules.Get(*prop)
+	}
+	if pack == nil && *prop != "all" {
 		fmt.Fprintf(os.Stderr, "unknown property %q; have %v\n", *prop, rules.IDs())
 		os.Exit(2)
 	}
@@ -102,6 +105,37 @@ func main() {
 	if err != nil {
 		fmt.Fprintf(os.Stderr, "CHECKER-ERROR property=%s load failed: %v\n", *prop, err)
 		os.Exit(2)
+	}
+	if *prop == "all" {
+		// every pack on one loaded program, nothing written: used for the false-alarm corpora (benignpar.sh)
+		known, err := core.LoadKnown(filepath.Join(*verif, "known_findings.json"))
+		if err != nil {
+			fmt.Fprintf(os.Stderr, "CHECKER-ERROR known findings: %v\n", err)
+			os.Exit(2)
+		}
+		worst := 0
+		for _, id := range rules.IDs() {
+			pk := rules.Get(id)
+			r := core.NewReport(id)
+			r.Floor("packages loaded", p.NumPkgs, 80)
+			r.Floor("production functions", len(p.SrcFuncs()), 700)
+			func() {
+				defer func() {
+					if e := recover(); e != nil {
+						r.Undecide(id+".panic", "checker", "", fmt.Sprintf("analyser panic: %v", e))
+					}
+				}()
+				pk.Run(p, r, *tier)
+				rules.Common(id, p, r)
+				rules.RunImports(id, p, r, *tier)
+			}()
+			out := r.Finish("", *tier, seed, start, known, map[string]any{}, false)
+			fmt.Printf("== %s rc=%d\n", id, out.ExitCode)
+			if out.ExitCode > worst {
+				worst = out.ExitCode
+			}
+		}
+		os.Exit(worst)
 	}
 	r := core.NewReport(*prop)
 	r.ReplayDir = filepath.Join(*verif, "replays")
